@@ -483,4 +483,37 @@ def tidOf : Ev → Tid
   | .md5_recv _ => .hasher
   | _ => .main
 
+/-! ### readings of std functions used by `determine_worker_count` (trusted, see tools/translate_par.py `WC_STD`) -/
+
+/-- value of an ASCII decimal digit -/
+def digitVal (c : Char) : Option Nat := if '0' ≤ c ∧ c ≤ '9' then some (c.toNat - 48) else none
+
+def parseDigits : List Char → Nat → Option Nat
+  | [], acc => some acc
+  | c :: cs, acc =>
+    match digitVal c with
+    | some d => parseDigits cs (acc * 10 + d)
+    | none => none
+
+/-- `str::parse::<usize>()` followed by `.ok()` (`bits` = width of `usize`).  Rust's documented behaviour of
+`usize::from_str` (core::num, `from_str_radix(src, 10)`): "The string is expected to be an optional `+` sign followed by
+only digits. Leading and trailing non-digit characters (including whitespace) represent an error. Underscores (which are
+accepted in Rust literals) also represent an error."  For an unsigned type a leading `-` is an invalid digit; the empty
+string and a lone sign are errors; a value that does not fit the type is an error (`PosOverflow`); leading zeros are
+accepted. -/
+def parseUsize (bits : Nat) (s : String) : Option Nat :=
+  let cs := s.toList
+  let ds := match cs with | '+' :: r => r | r => r
+  if ds.isEmpty then none
+  else
+    match parseDigits ds 0 with
+    | some v => if v < 2 ^ bits then some v else none
+    | none => none
+
+/-- `Option::map_or(default, f)` -/
+def mapOr {α β : Type} (o : Option α) (d : β) (f : α → β) : β := match o with | some a => f a | none => d
+
+/-- `x?` on a `Result` whose `Err` makes the function return `Err` (`none`) -/
+def bindO {α β : Type} (o : Option α) (k : α → Option β) : Option β := match o with | some a => k a | none => none
+
 end FlacVerif.ParProg
